@@ -66,6 +66,14 @@ impl InlineCache {
         if self.megamorphic.get() {
             return;
         }
+        #[cfg(boa_verif)]
+        {
+            if crate::verif::ic_interfere(crate::verif::IcEvent::Fill) {
+                crate::verif::ic_stat(|s| s.skipped_fills += 1);
+                return;
+            }
+            crate::verif::ic_stat(|s| s.fills += 1);
+        }
 
         let mut entries = self.entries.borrow_mut();
 
@@ -79,6 +87,8 @@ impl InlineCache {
         {
             // Polymorphic cache is full, transition to megamorphic.
             self.megamorphic.set(true);
+            #[cfg(boa_verif)]
+            crate::verif::ic_stat(|s| s.megamorphic += 1);
             entries.clear();
         }
     }
@@ -89,6 +99,14 @@ impl InlineCache {
     pub(crate) fn get(&self, shape: &Shape) -> Option<(Shape, Slot)> {
         if self.megamorphic.get() {
             return None;
+        }
+        #[cfg(boa_verif)]
+        {
+            crate::verif::ic_stat(|s| s.lookups += 1);
+            if crate::verif::ic_interfere(crate::verif::IcEvent::Lookup) {
+                crate::verif::ic_stat(|s| s.forced_misses += 1);
+                return None;
+            }
         }
 
         let mut entries = self.entries.borrow_mut();
@@ -106,9 +124,19 @@ impl InlineCache {
             } else {
                 // Opportunistically clean up stale weak shapes.
                 entries.swap_remove(i);
+                #[cfg(boa_verif)]
+                crate::verif::ic_stat(|s| s.stale_dropped += 1);
             }
         }
 
+        #[cfg(boa_verif)]
+        if let Some((_, slot)) = &result {
+            if slot.attributes.contains(crate::object::shape::slot::SlotAttributes::PROTOTYPE) {
+                crate::verif::ic_stat(|s| s.hits_prototype += 1);
+            } else {
+                crate::verif::ic_stat(|s| s.hits_own += 1);
+            }
+        }
         result
     }
 }
